@@ -753,4 +753,27 @@ example : (match execBlock exMem ⟨1, 0⟩ exBlock default (some exW) with
     | .ok m' => (m'.regions.getD 1 ByteArray.empty).data.toList.map (·.toNat) | .error _ => []) = [5, 250, 0, 0, 16, 239, 0, 0] := by
   decide +kernel
 
+
+/-- **From the executor's value to the reference kernel's value.** The value `exec_conv_block_correct` puts into the OFM (before
+    the activation function, TFL rounding) for a stripe is the value `TfliteRef.conv2d` computes for that output element of the
+    whole tensor — `clamp (MultiplyByQuantizedMultiplier (acc + bias) mult shift' + output zero point)` — when the C10 stripe equations
+    hold and the scale record carries the reference multiplier with `shift' = 31 - shift`. -/
+theorem conv_value_eq_reference (H W C h a oy0 pt pt' pl kh kw sy sx dy dx : Nat)
+    (ifm : Nat → Nat → Nat → Int) (wgt : Nat → Nat → Nat → Int) (zp bias scale ozp lo hi : Int) (shift : Nat) (oy ox : Nat)
+    (hs : 0 ≤ scale)
+    (hfield : (a : Int) - pt' = (oy0 : Int) * sy - pt)
+    (hrow : ∀ ky, ky < kh →
+      ((pt' ≤ oy * sy + ky * dy ∧ oy * sy + ky * dy - pt' < h) ↔
+       (0 ≤ (((oy0 + oy) * sy + ky * dy : Nat) : Int) - pt ∧ (((oy0 + oy) * sy + ky * dy : Nat) : Int) - pt < H))) :
+    clamp (npuScale .tfl (NpuSem.convAcc h W C (fun y x c => ifm (a + y) x c) kh kw wgt sy sx dy dx pt' pl zp oy ox + bias) scale shift + ozp) lo hi =
+    clamp (requant false (TfliteRef.convAcc H W C ifm kh kw wgt sy sx dy dx pt pl (-zp) (oy0 + oy) ox + bias) scale (31 - (shift : Int)) + ozp) lo hi := by
+  rw [conv_stripe_eq H W C h a oy0 pt pt' pl kh kw sy sx dy dx ifm wgt zp oy ox hfield hrow]
+  simp only [npuScale, requant]
+  rw [npuScaleTfl_eq_mbqm _ scale shift hs]
+  rfl
+
+example : clamp (npuScale .tfl (NpuSem.convAcc 4 4 2 (fun y x c => ((((2 + y) * 7 + x * 3 + c : Nat)) : Int)) 3 3 (fun ky kx c => (ky : Int) - kx + c) 1 1 1 1 0 1 5 1 2 + 9) 1518500250 35 + 3) (-128) 127 =
+    clamp (requant false (TfliteRef.convAcc 6 4 2 (fun y x c => (((y * 7 + x * 3 + c : Nat)) : Int)) 3 3 (fun ky kx c => (ky : Int) - kx + c) 1 1 1 1 1 1 (-5) (3 + 1) 2 + 9) 1518500250 (31 - 35) + 3) (-128) 127 := by
+  decide
+
 end VelaVerif.Props.C01
